@@ -61,7 +61,15 @@ fn numeral_raw(rng: &mut Rng) -> String {
 }
 
 fn data_item(rng: &mut Rng) -> String {
-    match rng.below(16) {
+    match rng.below(24) {
+        16 => "-0.5".into(),
+        17 => "-.25".into(),
+        18 => "\"INF\"".into(),
+        19 => "\"nan\"".into(),
+        20 => "\"Infinity\"".into(),
+        21 => "NaN".into(),
+        22 => "+7".into(),
+        23 => "\"-3\"".into(),
         0 => "hello".into(),
         1 => "\"quoted, with: stuff\"".into(),
         2 => "5".into(),
